@@ -3,6 +3,7 @@ package main
 import (
 	"fmt"
 	"go/token"
+	"go/types"
 	"sort"
 	"strings"
 
@@ -435,6 +436,8 @@ func init() {
 				checkLoopAlias(c, p, prop, pres)
 				if prop == "C11" {
 					checkInitCopy(c, p, prop, nil)
+					checkLastElem(c, p, "C11.lastelem", nil)
+					checkStaleCopy(c, p, "C11.stalecopy", nil)
 				}
 			}
 		}
@@ -548,5 +551,391 @@ func checkInitCopy(c *Ctx, p *Program, prop string, prefixes []string) {
 	c.count("init_struct_copies", ncopies)
 	if nbad == 0 {
 		c.ok(rule, "package initialisers copy a package-level struct only after its last field assignment", fmt.Sprintf("%d initialisers, %d by-value copies of package-level structs", len(fs), ncopies), "")
+	}
+}
+
+// SUMDROPPED: hash.Hash.Sum appends the digest to its argument and returns the extended slice; a call whose
+// result is dropped computes nothing the caller can see (`h.Sum(digest[:])` leaves digest untouched).
+func checkSumDropped(c *Ctx, p *Program, rule string) {
+	n, nbad := 0, 0
+	var fs []*ssa.Function
+	for f := range p.AllFuncs {
+		if f.Blocks != nil && isCirclFunc(f) && sourceFunc(f) && !strings.Contains(funcPkgPath(f), "/internal/test") {
+			fs = append(fs, f)
+		}
+	}
+	sort.Slice(fs, func(i, j int) bool { return fs[i].String() < fs[j].String() })
+	for _, f := range fs {
+		for _, b := range f.Blocks {
+			for _, in := range b.Instrs {
+				cl, ok := in.(*ssa.Call)
+				if !ok {
+					continue
+				}
+				name := p.staticCalleeName(&cl.Call)
+				if !strings.HasSuffix(name, ").Sum") || cl.Call.Signature().Results().Len() != 1 {
+					continue
+				}
+				if _, isSlice := cl.Type().Underlying().(*types.Slice); !isSlice {
+					continue
+				}
+				n++
+				// `h.Sum(buf[:0])` with spare capacity writes into buf itself: the only form whose result may be
+				// dropped
+				inPlace := false
+				if len(cl.Call.Args) > 0 {
+					if sl, ok := cl.Call.Args[len(cl.Call.Args)-1].(*ssa.Slice); ok && sl.High != nil {
+						if k, ok := sl.High.(*ssa.Const); ok && k.Value != nil && k.Value.ExactString() == "0" {
+							inPlace = true
+						}
+					}
+				}
+				if len(*cl.Referrers()) == 0 && !inPlace {
+					nbad++
+					c.bad(rule, fname(f)+": the digest returned by Sum is used", "the result of "+shortCallee(name)+" at "+p.pos(cl.Pos())+" is dropped and the argument is not an empty slice with spare capacity: Sum appends to its argument and returns the new slice, the bytes the argument already holds are not changed", p.pos(cl.Pos()))
+				}
+			}
+		}
+	}
+	c.count("sum_calls", n)
+	if n == 0 {
+		c.undecided(rule, "calls of Sum", "none found", "")
+	} else if nbad == 0 {
+		c.ok(rule, "every call of Sum uses the slice it returns", fmt.Sprintf("%d calls", n), "")
+	}
+}
+
+// LASTELEM: a loop that walks a table visits its last entry.
+//
+// `for i := 0; i < len(tab)-1; i++ { use(tab[i]) }` never looks at tab[len-1]. Reported when the loop bound is
+// len(x)-1 (or n-1 with n = len(x)), the body indexes x by the loop variable only (no x[i+1], which would be
+// the pairwise idiom), and nothing else in the function touches the last element of x.
+var lastElemExceptions = map[string]string{
+	"kem/frodo/frodo640shake.sample": "FrodoKEM specification (Frodo.Sample): the sample is compared with the first len-1 entries of the CDF table; the last entry is 2^15-1 and can never be below a 15-bit sample",
+}
+
+func checkLastElem(c *Ctx, p *Program, rule string, prefixes []string) {
+	var fs []*ssa.Function
+	for f := range p.AllFuncs {
+		if f.Blocks != nil && isCirclFunc(f) && sourceFunc(f) && !strings.Contains(funcPkgPath(f), "/internal/test") && (prefixes == nil || inScope(f, prefixes)) {
+			fs = append(fs, f)
+		}
+	}
+	sort.Slice(fs, func(i, j int) bool { return fs[i].String() < fs[j].String() })
+	// length of the indexed object when it is known from its type, else -1
+	arrLen := func(v ssa.Value) int64 {
+		t := v.Type()
+		if pt, ok := t.Underlying().(*types.Pointer); ok {
+			t = pt.Elem()
+		}
+		if at, ok := t.Underlying().(*types.Array); ok {
+			return at.Len()
+		}
+		return -1
+	}
+	isLenOf := func(v, x ssa.Value) bool {
+		cl, ok := v.(*ssa.Call)
+		if !ok {
+			return false
+		}
+		bi, ok := cl.Call.Value.(*ssa.Builtin)
+		return ok && bi.Name() == "len" && len(cl.Call.Args) == 1 && (cl.Call.Args[0] == x || descVal(cl.Call.Args[0]) == descVal(x))
+	}
+	nloops, nbad := 0, 0
+	for _, f := range fs {
+		hdrs := loopHeadersOf(f)
+		inLoop := func(b *ssa.BasicBlock, h int) bool {
+			if b.Index == h {
+				return true
+			}
+			for _, x := range hdrs[b.Index] {
+				if x == h {
+					return true
+				}
+			}
+			return false
+		}
+		type access struct {
+			base, idx ssa.Value
+			blk       *ssa.BasicBlock
+		}
+		var accs []access
+		whole := map[string]bool{} // objects also reached as a whole (range, slice, call argument)
+		for _, bb := range f.Blocks {
+			for _, in := range bb.Instrs {
+				switch y := in.(type) {
+				case *ssa.IndexAddr:
+					accs = append(accs, access{y.X, y.Index, bb})
+				case *ssa.Index:
+					accs = append(accs, access{y.X, y.Index, bb})
+				case *ssa.Range:
+					whole[descVal(y.X)] = true
+				case *ssa.Slice:
+					whole[descVal(y.X)] = true
+				case ssa.CallInstruction:
+					for _, a := range y.Common().Args {
+						if bi, ok := y.Common().Value.(*ssa.Builtin); ok && (bi.Name() == "len" || bi.Name() == "cap") {
+							continue
+						}
+						whole[descVal(a)] = true
+					}
+				}
+			}
+		}
+		// loops `iv < B` with B one less than the length of something indexed by iv inside the loop
+		short := map[string]map[ssa.Value]int{} // object -> induction variable -> header of its short loop
+		for _, b := range f.Blocks {
+			ifi, ok := b.Instrs[len(b.Instrs)-1].(*ssa.If)
+			if !ok {
+				continue
+			}
+			cmp, ok := ifi.Cond.(*ssa.BinOp)
+			if !ok || cmp.Op != token.LSS {
+				continue
+			}
+			iv, ok := cmp.X.(*ssa.Phi)
+			if !ok {
+				continue
+			}
+			for _, a := range accs {
+				if a.idx != ssa.Value(iv) || !inLoop(a.blk, b.Index) {
+					continue
+				}
+				// only tables that are a parameter, a package-level variable or a local as a whole (a row of a
+				// matrix selected by another index is a different object in every iteration)
+				switch bv := a.base.(type) {
+				case *ssa.Parameter, *ssa.Global, *ssa.Alloc:
+				case *ssa.UnOp:
+					switch bv.X.(type) {
+					case *ssa.Global, *ssa.Alloc:
+					default:
+						continue
+					}
+				default:
+					continue
+				}
+				isShort := false
+				if k, ok := cmp.Y.(*ssa.Const); ok && k.Value != nil {
+					if n := arrLen(a.base); n > 1 && k.Value.ExactString() == fmt.Sprint(n-1) {
+						isShort = true
+					}
+				}
+				if sub, ok := cmp.Y.(*ssa.BinOp); ok && sub.Op == token.SUB {
+					if k, ok := sub.Y.(*ssa.Const); ok && k.Value != nil && k.Value.ExactString() == "1" && isLenOf(sub.X, a.base) {
+						isShort = true
+					}
+				}
+				if !isShort {
+					continue
+				}
+				d := descVal(a.base)
+				if short[d] == nil {
+					short[d] = map[ssa.Value]int{}
+				}
+				short[d][iv] = b.Index
+			}
+		}
+		var objs []string
+		for d := range short {
+			objs = append(objs, d)
+		}
+		sort.Strings(objs)
+		for _, d := range objs {
+			nloops++
+			if whole[d] {
+				continue
+			}
+			// does any access reach the last element?
+			reaches := false
+			for _, a := range accs {
+				if descVal(a.base) != d {
+					continue
+				}
+				h, isShortIV := short[d][a.idx]
+				if !isShortIV || !inLoop(a.blk, h) {
+					reaches = true
+				}
+			}
+			if reaches {
+				continue
+			}
+			if why, ok := lastElemExceptions[fname(f)]; ok {
+				c.ok(rule, fmt.Sprintf("%s: the loops over %s reach its last element", fname(f), d), "exception: "+why, p.fnPos(f))
+				continue
+			}
+			nbad++
+			c.bad(rule, fmt.Sprintf("%s: the loops over %s reach its last element", fname(f), d),
+				"every access to it is indexed by a loop variable that stops at len-2: the last element is never looked at", p.fnPos(f))
+		}
+	}
+	c.count("len_minus_one_loops", nloops)
+	if nbad == 0 {
+		c.ok(rule, "no table is walked only by loops that stop one short of its end", fmt.Sprintf("%d tables indexed by a loop bounded by len-1 inspected", nloops), "")
+	}
+}
+
+// STALECOPY: a field copied from a sibling field of the same object is copied after the last write to it.
+//
+// `P.ta = P.x` followed by `fp.Neg(&P.x, &P.x)` leaves ta with the value x had before: the two fields that are
+// meant to be equal (or derived from one another) disagree. Reported when a field of an object is assigned
+// a load of another field of the same object and that other field may be written later in the function.
+func checkStaleCopy(c *Ctx, p *Program, rule string, prefixes []string) {
+	var fs []*ssa.Function
+	for f := range p.AllFuncs {
+		if f.Blocks != nil && isCirclFunc(f) && sourceFunc(f) && !strings.Contains(funcPkgPath(f), "/internal/test") && (prefixes == nil || inScope(f, prefixes)) {
+			fs = append(fs, f)
+		}
+	}
+	sort.Slice(fs, func(i, j int) bool { return fs[i].String() < fs[j].String() })
+	mod := p.Mod()
+	ncopies, nbad := 0, 0
+	for _, f := range fs {
+		reach := map[int]map[int]bool{}
+		reachFrom := func(b *ssa.BasicBlock) map[int]bool {
+			if m, ok := reach[b.Index]; ok {
+				return m
+			}
+			seen := map[int]bool{}
+			stack := []*ssa.BasicBlock{b}
+			for len(stack) > 0 {
+				x := stack[len(stack)-1]
+				stack = stack[:len(stack)-1]
+				for _, s := range x.Succs {
+					if !seen[s.Index] {
+						seen[s.Index] = true
+						stack = append(stack, s)
+					}
+				}
+			}
+			reach[b.Index] = seen
+			return seen
+		}
+		idx := map[ssa.Instruction]int{}
+		for _, b := range f.Blocks {
+			for i, in := range b.Instrs {
+				idx[in] = i
+			}
+		}
+		after := func(a, b ssa.Instruction) bool {
+			if a.Block() == b.Block() && idx[b] > idx[a] {
+				return true
+			}
+			return reachFrom(a.Block())[b.Block().Index]
+		}
+		fieldOf := func(v ssa.Value) *ssa.FieldAddr { // the field an address is rooted at
+			for i := 0; i < 16; i++ {
+				switch x := v.(type) {
+				case *ssa.FieldAddr:
+					return x
+				case *ssa.IndexAddr:
+					v = x.X
+				case *ssa.Slice:
+					v = x.X
+				case *ssa.ChangeType:
+					v = x.X
+				default:
+					return nil
+				}
+			}
+			return nil
+		}
+		for _, b := range f.Blocks {
+			for _, in := range b.Instrs {
+				st, ok := in.(*ssa.Store)
+				if !ok {
+					continue
+				}
+				dst, ok := st.Addr.(*ssa.FieldAddr)
+				if !ok {
+					continue
+				}
+				ld, ok := st.Val.(*ssa.UnOp)
+				if !ok || ld.Op != token.MUL {
+					continue
+				}
+				src, ok := ld.X.(*ssa.FieldAddr)
+				if !ok || src.Field == dst.Field || !sameLocation(src.X, dst.X, 0) {
+					continue
+				}
+				if pointerLike(ld.Type()) {
+					continue // sharing a pointer / slice is another matter (sharefield)
+				}
+				if _, isBasic := ld.Type().Underlying().(*types.Basic); isBasic {
+					continue // a cursor saved before it is advanced (start = curr; curr++) is the usual snapshot
+				}
+				ncopies++
+				// a later write to the source field
+				var later string
+				for _, bb := range f.Blocks {
+					for _, in2 := range bb.Instrs {
+						if !after(in, in2) {
+							continue
+						}
+						switch y := in2.(type) {
+						case *ssa.Store:
+							if fa := fieldOf(y.Addr); fa != nil && fa.Field == src.Field && sameLocation(fa.X, src.X, 0) {
+								// the other half of a swap (a, b = b, a) stores the old value of the destination
+								if l2, ok := y.Val.(*ssa.UnOp); ok && l2.Op == token.MUL {
+									if f2, ok := l2.X.(*ssa.FieldAddr); ok && f2.Field == dst.Field && sameLocation(f2.X, dst.X, 0) && idx[l2] < idx[in] && l2.Block() == in.Block() {
+										continue
+									}
+								}
+								later = p.pos(y.Pos())
+							}
+						case ssa.CallInstruction:
+							c0 := y.Common()
+							var args []ssa.Value
+							if c0.IsInvoke() {
+								args = append(args, c0.Value)
+							}
+							args = append(args, c0.Args...)
+							w := map[int]bool{}
+							for _, i := range externalWrites(p.staticCalleeName(c0), len(args)) {
+								w[i] = true
+							}
+							if cal := c0.StaticCallee(); cal != nil && cal.Blocks != nil {
+								for _, mw := range mod.of(cal) {
+									var i int
+									if _, err := fmt.Sscanf(mw.Root, "param#%d", &i); err == nil {
+										w[i] = true
+									}
+								}
+							}
+							for i := range w {
+								if i < len(args) {
+									if fa := fieldOf(args[i]); fa != nil && fa.Field == src.Field && sameLocation(fa.X, src.X, 0) {
+										later = p.pos(y.Pos())
+									}
+								}
+							}
+						}
+					}
+				}
+				if later == "" {
+					continue
+				}
+				nbad++
+				c.bad(rule, fmt.Sprintf("%s: field %s is copied from field %s after the last write to it", fname(f), fieldName(dst), fieldName(src)),
+					fmt.Sprintf("%s is assigned the value of %s at %s, and %s is written again at %s: the copy keeps the earlier value", fieldName(dst), fieldName(src), p.pos(st.Pos()), fieldName(src), later), p.pos(st.Pos()))
+			}
+		}
+	}
+	c.count("sibling_field_copies", ncopies)
+	if nbad == 0 {
+		c.ok(rule, "no field is copied from a sibling field that is written again afterwards", fmt.Sprintf("%d copies between fields of one object inspected", ncopies), "")
+	}
+}
+
+func init() {
+	for prop, pres := range map[string][]string{"C13": {"ecc/", "group", "sign/ed25519", "sign/ed448"}} {
+		prop, pres := prop, pres
+		prev := registry[prop]
+		registry[prop] = func(c *Ctx) {
+			prev(c)
+			if p := c.Prog("amd64"); p != nil {
+				c.Clauses = append(c.Clauses, prop+".stalecopy: a coordinate copied from a sibling coordinate of the same point is copied after the last write to it (T = x·y bookkeeping of extended coordinates)")
+				checkStaleCopy(c, p, prop+".stalecopy", pres)
+			}
+		}
 	}
 }
